@@ -488,6 +488,10 @@ def long_items(tier):
             for pat in patterns:
                 steps = [pat[i % len(pat)] for i in range(n - 1)]
                 out.append({'start': datetime.date(y, m, 1).isoformat(), 'steps': steps})
+    # five (thorough: ten) years of daily observations
+    for n in (1300,) if tier == 'quick' else (1300, 2610):
+        pat = patterns[1]
+        out.append({'start': '2011-03-01', 'steps': [pat[i % len(pat)] for i in range(n - 1)]})
     return out
 
 
